@@ -366,6 +366,35 @@ func rt_9(c *core.Ctx, p *core.Prog) {
 				bad = append(bad, fmt.Sprintf("%s: caller-controlled text (%s) is written verbatim", p.Pos(w.Pos()), core.AccessPath(arg)))
 			}
 		}
+		// completeness: the identity string of a resource / scope involves every identity field the container
+		// has (attributes, dropped count, name, version, …) and every string it is handed (the schema URL): two
+		// containers that differ in a field left out get one identity, are merged, and one of them is decoded
+		// with the other's value
+		if fn.Parent() == nil && fn.Signature.Params().Len() >= 1 && fn.Signature.Results().Len() == 1 && basicKind(fn.Signature.Results().At(0).Type()) == types.String {
+			if T := fn.Signature.Params().At(0).Type(); isPdataType(T) && core.TypeName(T) != "Value" && core.TypeName(T) != "Map" && core.TypeName(T) != "Slice" {
+				var missing []string
+				for _, field := range identityFields(T) {
+					used := false
+					core.EachInstr(fn, func(i ssa.Instruction) {
+						if cl, ok := i.(*ssa.Call); ok {
+							if f := pdataCallee(cl); f != nil && f.Name() == field && len(cl.Call.Args) > 0 && core.Canon(cl.Call.Args[0]) == ssa.Value(fn.Params[0]) && len(*cl.Referrers()) > 0 {
+								used = true
+							}
+						}
+					})
+					if !used {
+						missing = append(missing, core.TypeName(T)+"."+field+"()")
+					}
+				}
+				for _, prm := range fn.Params[1:] {
+					if basicKind(prm.Type()) == types.String && len(*prm.Referrers()) == 0 {
+						missing = append(missing, "parameter "+prm.Name())
+					}
+				}
+				c.Check(len(missing) == 0, key+"|complete", p.Pos(fn.Pos()), core.FuncName(fn), "the identity string involves every identity field of the "+core.TypeName(T)+" and every string parameter",
+					fmt.Sprintf("the identity string of a %s leaves out %s: two %ss that differ only there get the same identity, the optimizer merges them into one group, and the rows of one are decoded under the other's %s", core.TypeName(T), strings.Join(missing, ", "), core.TypeName(T), core.TypeName(T)))
+			}
+		}
 		c.Check(len(bad) == 0, key+"|framing", p.Pos(fn.Pos()), core.FuncName(fn), fmt.Sprintf("%d writes: constants and injectively framed values only", len(writes)),
 			"identity string used to group resources/scopes is not injective: "+strings.Join(bad, "; ")+" — two different resources/scopes whose texts contain the delimiters get the same identity and are merged into one")
 		// value identity: the value type is written on every path before the value part
